@@ -26,7 +26,15 @@ def memo(f):
         try:
             return cache[k][1]
         except KeyError:
-            v = f(*idx)
+            c = sym._CTX[0]
+            old = c.side_on if c is not None else None
+            if c is not None:
+                c.side_on = False     # domain checks are made when the array operation executes (op time), not here
+            try:
+                v = f(*idx)
+            finally:
+                if c is not None:
+                    c.side_on = old
             cache[k] = (idx, v)      # keep idx alive so ids are not reused
             return v
     g._memo = True
@@ -303,15 +311,18 @@ class View(ArrBase):
 
 class Masked(object):
     """a[mask] read: compressed copy of unknown length.  Supports same-mask arithmetic, len()==0,
-    any/all, amax/amin/sum (DESIGN 2.3)."""
+    any/all, amax/amin/sum (DESIGN 2.3).  `n` is the length (1-d source) or the shape tuple (n-d source)."""
     __array_priority__ = 1000
     __hash__ = object.__hash__
 
     def __init__(self, n, src, mask, maskobj, dtype='real'):
         self.n, self.src, self.mask, self.maskobj, self.dtype = n, src, mask, maskobj, dtype
         self._cnt = None
+        self.nd = len(n) if isinstance(n, tuple) else 1
 
     def count(self):
+        if self.nd != 1:
+            raise Unsupported('len() of n-d masked array')
         if self._cnt is None:
             c = CTX()
             cnt = c.fresh('cnt', 'int')
@@ -325,8 +336,7 @@ class Masked(object):
         return self._cnt
 
     def sym_len(self):
-        if dim_conc(self.n):
-            # concrete: count exactly
+        if self.nd == 1 and dim_conc(self.n):
             t = 0
             for i in range(self.n):
                 t = sym.add(t, ite(self.mask(i), 1, 0))
@@ -336,19 +346,23 @@ class Masked(object):
     def _same(self, o):
         if o.maskobj is self.maskobj:
             return
-        i = CTX().fresh('mi', 'int')
-        CTX().side('same-mask', sym.implies(sym.and_(i >= 0, i < self.n), sym.cmp('==', self.mask(i), o.mask(i))))
+        if self.nd != o.nd:
+            raise PyRaise('ValueError', 'operands could not be broadcast together (masked)')
+        shape = self.n if isinstance(self.n, tuple) else (self.n,)
+        idx = [CTX().fresh('mi', 'int') for _ in shape]
+        inb = sym.and_(*[sym.and_(i >= 0, sym.cmp('<', i, d)) for i, d in zip(idx, shape)])
+        CTX().side('same-mask', sym.implies(inb, sym.cmp('==', self.mask(*idx), o.mask(*idx))))
 
     def _op(self, f, o, rev=False, dtype=None):
         if isinstance(o, Masked):
             self._same(o)
             g, h = self.src, o.src
-            fn = (lambda i: f(h(i), g(i))) if rev else (lambda i: f(g(i), h(i)))
+            fn = (lambda *i: f(h(*i), g(*i))) if rev else (lambda *i: f(g(*i), h(*i)))
         elif isinstance(o, ArrBase):
             raise Unsupported('masked array combined with full array')
         else:
             g = self.src
-            fn = (lambda i: f(o, g(i))) if rev else (lambda i: f(g(i), o))
+            fn = (lambda *i: f(o, g(*i))) if rev else (lambda *i: f(g(*i), o))
         return Masked(self.n, memo(fn), self.mask, self.maskobj, dtype or self.dtype)
 
     def __add__(self, o): return self._op(sym.add, o)
@@ -360,7 +374,7 @@ class Masked(object):
     def __truediv__(self, o): return self._op(sym.div, o)
     def __rtruediv__(self, o): return self._op(sym.div, o, True)
     def __pow__(self, o): return self._op(sym.power, o)
-    def __neg__(self): return Masked(self.n, memo(lambda i: sym.sub(0, self.src(i))), self.mask, self.maskobj, self.dtype)
+    def __neg__(self): return self.map(lambda a: sym.sub(0, a))
     def __abs__(self): return self.map(sym.absv)
     def __lt__(self, o): return self._op(lambda a, b: sym.cmp('<', a, b), o, dtype='bool')
     def __le__(self, o): return self._op(lambda a, b: sym.cmp('<=', a, b), o, dtype='bool')
@@ -369,7 +383,7 @@ class Masked(object):
 
     def map(self, f, dtype=None):
         g = self.src
-        return Masked(self.n, memo(lambda i: f(g(i))), self.mask, self.maskobj, dtype or self.dtype)
+        return Masked(self.n, memo(lambda *i: f(g(*i))), self.mask, self.maskobj, dtype or self.dtype)
 
 
 def as_fn(x, shape):
@@ -572,13 +586,14 @@ def getitem(a, key):
     if len(key) == 1 and isinstance(key[0], ArrBase):
         m = key[0]
         if m.dtype == 'bool':
-            if a.ndim != 1 or m.ndim != 1:
-                if a.ndim == m.ndim and all(dim_conc(d) for d in a.shape):
-                    raise Unsupported('n-d boolean mask read')
-                raise Unsupported('n-d boolean mask read')
-            if not dim_eq(a.shape[0], m.shape[0]):
-                CTX().side('mask-length', sym.cmp('==', a.shape[0], m.shape[0]))
-            return Masked(a.shape[0], a.snap(), m.snap(), m, a.dtype)
+            if a.ndim != m.ndim:
+                raise Unsupported('boolean mask of lower rank than the array (read)')
+            for d, e in zip(a.shape, m.shape):
+                if not dim_eq(d, e):
+                    CTX().side('mask-length', sym.cmp('==', d, e))
+            if a.ndim == 1:
+                return Masked(a.shape[0], a.snap(), m.snap(), m, a.dtype)
+            return Masked(tuple(a.shape), a.snap(), m.snap(), m, a.dtype)
         if m.dtype == 'int':
             return take(a, m, 0)
     if len(key) == 1 and isinstance(key[0], list):
@@ -687,10 +702,9 @@ def setitem(a, key, val):
         mf = m.snap()
         if isinstance(val, Masked):
             if val.maskobj is not m:
-                if a.ndim != 1:
-                    raise Unsupported('n-d masked assignment from different mask')
-                i = CTX().fresh('mi', 'int')
-                CTX().side('same-mask', sym.implies(sym.and_(i >= 0, i < a.shape[0]), sym.cmp('==', mf(i), val.mask(i))))
+                idx = [CTX().fresh('mi', 'int') for _ in a.shape]
+                inb = sym.and_(*[sym.and_(i >= 0, sym.cmp('<', i, d)) for i, d in zip(idx, a.shape)])
+                CTX().side('same-mask', sym.implies(inb, sym.cmp('==', mf(*idx), val.mask(*idx))))
             vf = val.src
             a.update(mf, vf)
         elif isinstance(val, ArrBase):
@@ -738,9 +752,14 @@ def setitem(a, key, val):
     if isinstance(val, Masked):
         raise Unsupported('slice = masked array')
     if isinstance(val, ArrBase):
-        vf = as_fn(val, tgt.shape)
+        while val.ndim > tgt.ndim and dim_conc(val.shape[0]) and val.shape[0] == 1:
+            val = getitem(val, (0,))          # numpy drops leading length-1 axes of the value
+            if not isinstance(val, ArrBase):
+                tgt.update(None, lambda *idx, _v=val: _v)
+                return
         if val.ndim > tgt.ndim:
             raise PyRaise('ValueError', 'could not broadcast input array')
+        vf = as_fn(val, tgt.shape)
         tgt.update(None, vf)
     else:
         tgt.update(None, lambda *idx: val)
@@ -772,7 +791,15 @@ class Opaque(object):
         return Opaque(self.name + '.' + k)
 
     def __call__(self, *a, **k):
-        raise Unsupported('call of opaque %s' % self.name)
+        # results of library calls stay opaque; any USE of them (arithmetic, branching, iteration, indexing)
+        # is Unsupported, so nothing is ever silently invented
+        return Opaque(self.name + '()')
+
+    def _no(self, *a, **k):
+        raise Unsupported('use of opaque value %s' % self.name)
+    __add__ = __radd__ = __sub__ = __rsub__ = __mul__ = __rmul__ = __truediv__ = __rtruediv__ = __pow__ = __rpow__ = _no
+    __neg__ = __abs__ = __lt__ = __le__ = __gt__ = __ge__ = __getitem__ = __setitem__ = __iter__ = __len__ = __bool__ = _no
+    __hash__ = object.__hash__
 
 
 def _shape_arg(s):
@@ -927,10 +954,23 @@ class _NP(object):
     def abs(self, x): return elementwise(sym.absv, x)
     def absolute(self, x): return elementwise(sym.absv, x)
     def fabs(self, x): return elementwise(sym.absv, x)
-    def sqrt(self, x): return elementwise(sym.sqrt, x, rdtype='real')
+    def _domain(self, x, name, pred):
+        if isinstance(x, ArrBase) and x.ndim:
+            c = CTX()
+            if getattr(c, 'replay', False) or not c.side_on:
+                return
+            idx = [c.fresh('d', 'int') for _ in x.shape]
+            inb = sym.and_(*[sym.and_(i >= 0, sym.cmp('<', i, d)) for i, d in zip(idx, x.shape)])
+            c.prove('side:' + name, sym.implies(inb, pred(x.get(*idx))), kind='side', inst=idx)
+
+    def sqrt(self, x):
+        self._domain(x, 'sqrt-domain', lambda v: sym.cmp('>=', v, 0))
+        return elementwise(sym.sqrt, x, rdtype='real')
     def cbrt(self, x): return elementwise(sym.cbrt, x, rdtype='real')
     def exp(self, x): return elementwise(sym.exp, x, rdtype='real')
-    def log(self, x): return elementwise(sym.log, x, rdtype='real')
+    def log(self, x):
+        self._domain(x, 'log-domain', lambda v: sym.cmp('>', v, 0))
+        return elementwise(sym.log, x, rdtype='real')
     def log10(self, x): return elementwise(lambda a: sym.div(sym.log(a), sym.opaque_fn('ln10')), x, rdtype='real')
     def power(self, x, y): return elementwise(sym.power, x, y)
     def square(self, x): return elementwise(lambda a: sym.mul(a, a), x)
@@ -983,7 +1023,8 @@ class _NP(object):
     def sum(self, x, axis=None):
         if isinstance(x, Masked):
             g, m = x.src, x.mask
-            return self.sum(Arr((x.n,), lambda i: ite(m(i), g(i), 0)))
+            shp = x.n if isinstance(x.n, tuple) else (x.n,)
+            return self.sum(Arr(shp, lambda *i: ite(m(*i), g(*i), 0)))
         x = to_arr(x) if not isinstance(x, ArrBase) else x
         if x.ndim == 0:
             return x.get()
@@ -1082,6 +1123,17 @@ class _NP(object):
         op = sym.vmax if kind == 'max' else sym.vmin
         if isinstance(x, Masked):
             c = CTX()
+            if x.nd != 1:
+                # n-d masked reduction: opaque value with attained + bound facts over concrete leading axes only
+                shp = x.n
+                M = c.fresh('a' + kind)
+                ws = [c.fresh('w', 'int') for _ in shp]
+                g, m = x.src, x.mask
+                c.assume(sym.and_(*[sym.and_(w >= 0, sym.cmp('<', w, d)) for w, d in zip(ws, shp)]), m(*ws), sym.cmp('==', g(*ws), M))
+                for w in ws:
+                    c.skolems.append(w.t)
+                c.trace.append('n-d masked a%s: non-emptiness of the masked set assumed (numpy raises otherwise)' % kind)
+                return M
             g, m, n = x.src, x.mask, x.n
             M = c.fresh('a' + kind)
             w = c.fresh('w', 'int')
@@ -1109,6 +1161,12 @@ class _NP(object):
                 rel = '<=' if kind == 'max' else '>='
                 c.qfact('a%s-bound' % kind, lambda i: sym.implies(sym.and_(i >= 0, i < n), sym.cmp(rel, g(i), M)))
                 return M
+            symax = [k for k, d in enumerate(x.shape) if not dim_conc(d)]
+            if len(symax) == 1:
+                r = x
+                for k in reversed([k for k in range(x.ndim) if k != symax[0]]):
+                    r = self._minmax(r, k, kind)
+                return self._minmax(r, None, kind)
             raise Unsupported('amax over n-d symbolic array')
         axis = axis + x.ndim if axis < 0 else axis
         n = x.shape[axis]
@@ -1420,6 +1478,9 @@ class _NP(object):
             return Arr((b.shape[1],), lambda j: _fold(sym.add, [sym.mul(f(k), g(k, j)) for k in range(n)]), 'real')
         if a.ndim == 1 and b.ndim == 1 and dim_conc(a.shape[0]):
             return _fold(sym.add, [sym.mul(f(k), g(k)) for k in range(a.shape[0])])
+        if a.ndim == 3 and b.ndim == 3 and dim_conc(a.shape[2]):
+            n = a.shape[2]
+            return Arr((a.shape[0], a.shape[1], b.shape[2]), lambda t, i, j: _fold(sym.add, [sym.mul(f(t, i, k), g(t, k, j)) for k in range(n)]), 'real')
         raise Unsupported('matmul of shapes %s %s' % (a.shape, b.shape))
 
     def tensordot(self, a, b, axes=2):
